@@ -3,6 +3,7 @@ package db
 import (
 	"encoding/binary"
 	"fmt"
+	"math"
 	"regexp"
 	"strconv"
 
@@ -22,15 +23,18 @@ type dbs struct {
 	db     dbm.DB
 	prefix string
 
-	mtx  tmsync.RWMutex
-	size uint16
+	mtx tmsync.RWMutex
+	// Number of stored light blocks. Wider than what Size() can report: a client
+	// that never prunes (PruningSize(0)) may store more than 65535 light blocks,
+	// and Prune must still know how many there are.
+	size uint64
 }
 
 // New returns a Store that wraps any DB (with an optional prefix in case you
 // want to use one DB with many light clients).
 func New(db dbm.DB, prefix string) store.Store {
 
-	size := uint16(0)
+	size := uint64(0)
 	bz, err := db.Get(sizeKey)
 	if err == nil && len(bz) > 0 {
 		size = unmarshalSize(bz)
@@ -227,10 +231,10 @@ func (s *dbs) Prune(size uint16) error {
 	sSize := s.size
 	s.mtx.RUnlock()
 
-	if sSize <= size { // nothing to prune
+	if sSize <= uint64(size) { // nothing to prune
 		return nil
 	}
-	numToPrune := sSize - size
+	numToPrune := sSize - uint64(size)
 
 	// 2) Iterate over headers and perform a batch operation.
 	itr, err := s.db.Iterator(
@@ -245,7 +249,7 @@ func (s *dbs) Prune(size uint16) error {
 	b := s.db.NewBatch()
 	defer b.Close()
 
-	pruned := 0
+	pruned := uint64(0)
 	for itr.Valid() && numToPrune > 0 {
 		key := itr.Key()
 		_, height, ok := parseLbKey(key)
@@ -271,7 +275,7 @@ func (s *dbs) Prune(size uint16) error {
 	s.mtx.Lock()
 	defer s.mtx.Unlock()
 
-	s.size -= uint16(pruned)
+	s.size -= pruned
 
 	if wErr := s.db.SetSync(sizeKey, marshalSize(s.size)); wErr != nil {
 		return fmt.Errorf("failed to persist size: %w", wErr)
@@ -286,7 +290,10 @@ func (s *dbs) Prune(size uint16) error {
 func (s *dbs) Size() uint16 {
 	s.mtx.RLock()
 	defer s.mtx.RUnlock()
-	return s.size
+	if s.size > math.MaxUint16 {
+		return math.MaxUint16
+	}
+	return uint16(s.size)
 }
 
 func (s *dbs) lbKey(height int64) []byte {
@@ -319,12 +326,25 @@ func parseLbKey(key []byte) (prefix string, height int64, ok bool) {
 	return
 }
 
-func marshalSize(size uint16) []byte {
-	bs := make([]byte, 2)
-	binary.LittleEndian.PutUint16(bs, size)
+// The size is persisted as 2 little-endian bytes as long as it fits (the
+// format of earlier versions) and as 8 bytes beyond that.
+func marshalSize(size uint64) []byte {
+	if size <= math.MaxUint16 {
+		bs := make([]byte, 2)
+		binary.LittleEndian.PutUint16(bs, uint16(size))
+		return bs
+	}
+	bs := make([]byte, 8)
+	binary.LittleEndian.PutUint64(bs, size)
 	return bs
 }
 
-func unmarshalSize(bz []byte) uint16 {
-	return binary.LittleEndian.Uint16(bz)
+func unmarshalSize(bz []byte) uint64 {
+	if len(bz) >= 8 {
+		return binary.LittleEndian.Uint64(bz)
+	}
+	if len(bz) < 2 {
+		return 0
+	}
+	return uint64(binary.LittleEndian.Uint16(bz))
 }
